@@ -156,8 +156,20 @@ def instances(rng: random.Random, tier: str) -> list[dict]:
         add("ip", b".".join(str(rng.choice(octs)).encode() for _ in range(4)))
     for bad in (b"1.2.3.256", b"01.2.3.4", b"1.2.3", b"0.0.0.0", b"1.2.3.0", b"1.2.3.255", b"1.2.3.4.5"[:7]):
         add("ip", bad)
-    # (a one-letter first label under some TLDs is one of the documented false-positive shapes: not generated)
-    labels = [b"ab", b"example", b"evil-site", b"x1", b"a" * 63, b"sub", b"9gag", b"my-host2"]
+    # on both sides of every documented false-positive rule (Net.FalsePositiveDomain decides which side): roots and endings
+    # from the two tables and next to them, one-letter roots, "this.", x.prototype.y, name.Capitalised, iterator ... .next
+    roots = [b"a", b"x", b"ab", b"data", b"datax", b"user", b"users", b"wscript", b"this", b"thisx", b"object", b"e-mail", b"email", b"zone", b"org"]
+    ends = [b"com", b"io", b"info", b"app", b"zone", b"top", b"pl", b"sh", b"so", b"next", b"net", b"museum", b"id", b"is", b"it", b"de"]
+    for r_ in roots:
+        for e_ in ends:
+            add("domain", r_ + b"." + e_)
+            add("domain", r_ + b".example." + e_)
+    for d_ in (b"this.example.com", b"This.Example.com", b"thisis.example.com", b"a.prototype.is", b"ab.prototype.io", b"abc.prototype.is", b"a.prototype.com",
+               b"a.prototypes.is", b"obj.Example.com", b"obj.EXample.com", b"obj.Ex.com", b"obj.E.com", b"Obj.Example.com", b"obj1.Example.com", b"ob-j.Example.com",
+               b"my.iterator.next", b"iterator.next", b"myiteratorx.y.next", b"iter.ator.next", b"libfoo.so", b"libc.so", b"example.Museum", b"www.exampleCom.com",
+               b"x.example.Com", b"docs.google.com", b"a.b.c.d.io", b"function.name", b"function.names", b"functions.name"):
+        add("domain", d_)
+    labels = [b"ab", b"example", b"evil-site", b"x1", b"a" * 63, b"sub", b"9gag", b"my-host2", b"a", b"data", b"user"]
     tlds = [b"com", b"net", b"org", b"museum", b"co.uk", b"io", b"xn--p1ai", b"invalidtld", b"c0m", b"info", b"de", b"COM"]
     for _ in range(150 if tier == "quick" else 3000):
         n = rng.randint(1, 3)
@@ -279,6 +291,11 @@ def run(prop: str, tier: str) -> int:
         pinned = {t.encode() for t in json.load(f)}
     with open(tld_file, "w") as f:
         json.dump([b2l(t) for t in sorted(pinned)], f)
+    fpos_file = os.path.join(work, "fpos.json")
+    with open(os.path.join(tlc.SPEC, "domain_fpos_pinned.json")) as f:
+        fp = json.load(f)
+    with open(fpos_file, "w") as f:
+        json.dump({"root": [b2l(x.encode()) for x in fp["root_fpos"]], "tld": [b2l(x.encode()) for x in fp["tld_fpos"]]}, f)
     table = {bytes(t) for t in TOP_LEVEL_DOMAINS}
     tld_added, tld_removed = sorted(table - pinned)[:40], sorted(pinned - table)[:40]
     events: list[dict] = []
@@ -348,7 +365,7 @@ def run(prop: str, tier: str) -> int:
             f.write(json.dumps(ev) + "\n")
     n = len(events)
     cfg = "CONSTANT TLDs <- TldSet\nSPECIFICATION Spec\nCHECK_DEADLOCK FALSE\n"
-    v, r = tlc.run_trace("NetTrace", cfg, path_, n, env={"TLD_FILE": tld_file}, max_lines=40000, max_bytes=40_000_000)
+    v, r = tlc.run_trace("NetTrace", cfg, path_, n, env={"TLD_FILE": tld_file, "FPOS_FILE": fpos_file}, max_lines=40000, max_bytes=40_000_000)
     na = sum(1 for cl in v.values() if "n/a" in cl)
     for t, cl in v.items():
         for c in cl:
@@ -364,6 +381,13 @@ def run(prop: str, tier: str) -> int:
                     facts = {"clause": c, "kind": ev["kind"]}
                 res.violation(what, facts, {"kind": "net-event", "event": ev,
                                             "input_hex": (bytes(ev.get("pre", [])) + bytes(ev.get("blob", ev.get("cov", []))) + bytes(ev.get("suf", []))).hex()})
+    notes = sum(1 for cl in v.values() if "note.falsepositive.reported" in cl)
+    if prop == "C11":
+        res.coverage["beyond_listed_properties"] = {
+            "judged": "documented false-positive shapes (Net.FalsePositiveDomain): a name inside one of them is not reported as a free-text domain",
+            "suppressed_shapes_reported_anyway": notes}
+        if notes:
+            print(f"NOTE beyond the listed properties: {notes} name(s) inside a documented false-positive shape were reported as domains")
     res.coverage["evaluations"] = n
     res.coverage["distinct_nontrivial"] = n - na
     res.coverage["not_judged_outside_domain"] = na
